@@ -15,7 +15,7 @@ def superpose(rng, G, routes, weights):
     return f
 
 
-def rand_flow_dag(rng, nmax=6, npaths=(1, 4), intw=None):
+def rand_flow_dag(rng, nmax=6, npaths=(1, 4), intw=None, zero_edges=False):
     """DAG with a conserving flow = superposition of weighted source-to-sink paths; only edges with
     positive flow are kept.  Returns (G, paths, weights, is_int)."""
     while True:
@@ -30,11 +30,12 @@ def rand_flow_dag(rng, nmax=6, npaths=(1, 4), intw=None):
         ws = [rng.choice(WEIGHTS_INT) * scale for _ in chosen]
         f = superpose(rng, G0, chosen, ws)
         G = nx.DiGraph()
-        es = [e for e in G0.edges() if e in f]
+        es = [e for e in G0.edges() if e in f or (zero_edges and rng.random() < 0.3)]
         rng.shuffle(es)
         for (u, v) in es:
-            G.add_edge(u, v, flow=(int(f[(u, v)]) if is_int else float(f[(u, v)])))
-        if G.number_of_edges() >= 1:
+            x = f.get((u, v), 0)
+            G.add_edge(u, v, flow=(int(x) if is_int else float(x)))
+        if any(e in f for e in G.edges()):
             return G, chosen, ws, is_int
 
 
